@@ -288,7 +288,11 @@ class PlainQuantity(Generic[MagnitudeT], PrettyIPython, SharedRegistryObject):
         if self_base.dimensionless:
             return hash(self_base.magnitude)
 
-        return hash((self_base.__class__, self_base.magnitude, self_base.units))
+        # == compares dimensionality and converted magnitudes (1 Hz == 1 Bq == 1 count/s),
+        # so the hash must not depend on which dimensionless root units are present
+        return hash(
+            (self_base.__class__, self_base.magnitude, self_base.dimensionality)
+        )
 
     @property
     def magnitude(self) -> MagnitudeT:
